@@ -257,13 +257,20 @@ class LayoutMetamorphic(BoundedCheck):
         for name, p in programs(tier, seed, 2500 if tier == 'thorough' else 200):
             if p:
                 yield {'script': G.render_script(p), 'seed': rnd.randrange(10 ** 6)}
+        # verbatim code: comments, blank lines and indentation inside a fenced block belong to the block's layout, not to its meaning
+        base = '```\nif True:\n    self.Q = 1\n    self.R = 2\n```\nY = X + 1'
+        for variant in ('```\nif True:\n    self.Q = 1  # set Q\n    self.R = 2\n```\nY = X + 1',
+                        '```\nif True:  # always\n    self.Q = 1\n    self.R = 2   # and R\n```\nY = X + 1  # then Y',
+                        '```\nif True:\n    self.Q = 1\n    self.R = 2\n```\n\nY = X + 1\n',
+                        '# lead\n```\nif True:\n    self.Q = 1\n    self.R = 2\n```\nY   =   X+1'):
+            yield {'script': base, 'seed': 0, 'fenced_variant': variant}
 
     def check(self, case, res: BoundedResult):
         import fsic
-        p = G.parse_script(case['script'])
+        p = G.parse_script(case['script']) if not case.get('fenced_variant') else None
         rnd = random.Random(case['seed'])
         out = []
-        base_script = G.render_script(p)
+        base_script = G.render_script(p) if p is not None else case['script']
         jcase = {'script': base_script, 'seed': case['seed']}
         res.nontrivial.add(base_script)
         try:
@@ -287,6 +294,9 @@ class LayoutMetamorphic(BoundedCheck):
                 # (for the two recorded layouts the defect is the detached index, whether it shows in the lag / lead lengths or only in the code)
                 out.append(Violation(f'{what} does not change the meaning of the generated code', f'c14.{sig}:' + ('symbols' if sig == 'space-before-index' else 'code'), dict(jcase, variant=script),
                                      [s.code for s in base], [s.code for s in got], 'layout_invariant'))
+        if case.get('fenced_variant'):
+            compare(case['fenced_variant'], 'comments / blank lines around and inside a fenced block (indentation of its lines kept)', 'fenced-layout')
+            return out
         res.cover('layout')
         for _ in range(6):
             compare(G.render_script(p, G.Layout.random(rnd)), 'whitespace / comments / blank lines / [0] / line breaks in parentheses', 'layout')
@@ -477,6 +487,8 @@ class GraphEdges(BoundedCheck):
         # an offset on the left-hand side: the node is the left-hand-side term as written
         yield {'script': 'H[1] = H + YD - C[-1]', 'seed': 6, 'lhs': 'H[t+1]', 'fragments': ['H[t]', 'YD[t]', 'C[t-1]']}
         yield {'script': 'K[-1] = K[-2] * {d}[1]', 'seed': 7, 'lhs': 'K[t-1]', 'fragments': ['K[t-2]', 'd[t+1]']}
+        # one statement assigning several left-hand-side terms: each of them is a node carrying the equation, with an edge from every right-hand-side term
+        yield {'script': 'A,B = X + Z[-1], X - Z[-1]', 'seed': 8, 'lhs': ['A[t]', 'B[t]'], 'fragments': ['X[t]', 'Z[t-1]']}
         # several verbatim fragments in one equation: the terms between, before and after them are terms of the equation
         yield {'script': 'Y = `1.5 *` X + C[-1] `- 0.5` + G', 'seed': 4, 'fragments': ['X[t]', 'C[t-1]', 'G[t]']}
         yield {'script': 'Y = A `+ 2.0 *` B[1] `+ 3.0 *` {c} `+` <e>[-2]', 'seed': 5, 'fragments': ['A[t]', 'B[t+1]', 'c[t]', 'e[t-2]']}
@@ -503,7 +515,14 @@ class GraphEdges(BoundedCheck):
                                          'c20.edges:named-period', jcase, want, sorted(preds), 'edges'))
             return out
         if case.get('fragments'):
-            lhs = case.get('lhs', 'Y[t]')
+            lhs_all = case.get('lhs', 'Y[t]')
+            lhs_all = lhs_all if isinstance(lhs_all, list) else [lhs_all]
+            for lhs in lhs_all[1:]:
+                pr = {x for x in (g.predecessors(lhs) if lhs in g.nodes else []) if re.fullmatch(r'[_A-Za-z]\w*\[t(?:[+-]\d+)?\]', x)}
+                if lhs not in g.nodes or g.nodes[lhs].get('equation') != symbols[0].equation or pr != set(case['fragments']):
+                    out.append(Violation('one node per left-hand-side term carrying the normalised equation, with an edge from every right-hand-side term', 'c20.node:several-lhs-terms', jcase,
+                                         [lhs, sorted(case['fragments'])], [sorted(g.nodes)[:6], sorted(pr)], 'nodes'))
+            lhs = lhs_all[0]
             preds = set(g.predecessors(lhs)) if lhs in g.nodes else set()
             if lhs not in g.nodes or g.nodes[lhs].get('equation') != symbols[0].equation:
                 out.append(Violation('one node per left-hand-side term, as written, carrying the normalised equation', 'c20.node:lhs-offset', jcase, lhs, sorted(g.nodes)[:6], 'nodes'))
